@@ -217,7 +217,9 @@ func wrapBranch(name string, message profile.Message, branch BranchRegoResult, m
 		}
 		matchesLine := fmt.Sprintf("  %s := trace(\"%s\",\"%s\",%s,%s)", bindingResult, r.ConstraintId(), traceResultPath, r.TraceNode, r.TraceValue)
 		for _, l := range r.Rego {
-			if strings.Contains(l, "$message") {
+			// $message is a template variable of embedded Rego only: in the code generated for declarative
+			// constraints the same characters are profile text (a pattern, a list value)
+			if r.Constraint == "rego" && strings.Contains(l, "$message") {
 				customMessage = true
 				l = strings.ReplaceAll(l, "$message", "message")
 			}
